@@ -67,7 +67,40 @@ def hash_attr(I, h, name):
     return NotImplemented
 
 
+class DStub(object):
+    """model of a twisted Deferred: records its state and the callbacks chained on it (never runs them itself)."""
+
+    def __init__(self, state="pending", value=None):
+        self.state = state          # 'pending' | 'succeeded' | 'failed'
+        self.value = value
+        self.callbacks = []         # list of (kind, fn, args, kwargs)
+
+
+def dstub_attr(I, d, name):
+    from .interp import ModelFn
+
+    def mk(kind):
+        def f(I_, a, k):
+            d.callbacks.append((kind, a[0], tuple(a[1:]), dict(k)))
+            return d
+        return f
+    if name in ("addCallback", "addErrback", "addBoth"):
+        return ModelFn("Deferred." + name, mk(name))
+    if name == "addCallbacks":
+        def f2(I_, a, k):
+            d.callbacks.append(("addCallbacks", a[0], (a[1] if len(a) > 1 else None,), dict(k)))
+            return d
+        return ModelFn("Deferred.addCallbacks", f2)
+    return NotImplemented
+
+
 def register(t):
+    try:
+        from twisted.internet import defer
+        t[defer.succeed] = lambda I, a, k: DStub("succeeded", a[0] if a else None)
+        t[defer.fail] = lambda I, a, k: DStub("failed", a[0] if a else None)
+    except Exception:
+        pass
     import hashlib
     t[hashlib.sha256] = mk_hash("sha256", 32)
     t[hashlib.sha1] = mk_hash("sha1", 20)
